@@ -3,6 +3,7 @@ import fi_rules as F
 import cowrite
 import generic_lints
 import twins
+import triggers
 
 
 def run(facts, tier):
@@ -15,6 +16,7 @@ def run(facts, tier):
         ("couplings", lambda fa: cowrite.obligations(fa, ['frequent_items_sketch', 'reverse_purge_hash_map']), 8, "fields that every mutator updates together (counters, extremes, cached values) are still updated together"),
         ("duplicate operands", lambda fa: generic_lints.duplicate_conjuncts(fa, ('fi/',)), 2, "no logical chain tests the same operand twice (copy-paste of the wrong peer)"),
         ("overload twins", lambda fa: twins.overload_twins(fa, ('fi/',)), 1, "const& and && overloads of one operation have identical bodies modulo std::move/forward"),
+        ("structural triggers", lambda fa: triggers.obligations(fa, ['reverse_purge_hash_map']), 3, "the comparisons that decide when to resize / rebuild / compact / purge / promote keep their reviewed boundary (operator and constants)"),
     ):
         o = f(facts)
         obs += o
